@@ -63,6 +63,13 @@ std::string job( int t, int r)
       ah.addArgument( "f,flag", DEST_VAR( flag), "flag");
       ah.addArgument( "n,name", DEST_VAR( name), "name")->setIsMandatory()
          ->addCheck( pa::minLength( 2));
+      // handler constraints whose lists differ from thread to thread and in which the arguments used are not the
+      // first entries: a constraint evaluation that keeps state outside the handler mixes up the lists
+      bool  extra = false;
+      ah.addArgument( "e,extra", DEST_VAR( extra), "extra flag");
+      ah.addConstraint( pa::all_of( (t + r) % 2 == 0 ? "i;n;l" : "l;i;n"));
+      ah.addConstraint( pa::any_of( (t + r) % 3 == 0 ? "e;f;n" : "e;n"));
+      ah.addConstraint( pa::one_of( (t + r) % 2 == 0 ? "e;f" : "f;e;n"));
 
       // the text contains every separator: split with the wrong one it gives other tokens
       std::string  ints_txt, strs_txt, upper_txt;
